@@ -59,9 +59,15 @@ func refIndex(cur any, p string) (any, bool) {
 		return rv.Index(i).Interface(), true
 	case reflect.Struct:
 		t := rv.Type()
-		for i := 0; i < t.NumField(); i++ {
-			if f := t.Field(i); f.IsExported() && f.Name == p {
-				return rv.Field(i).Interface(), true
+		// "the same element ordinary Go indexing reaches": v.P for an exported field P, declared or promoted from an embedded struct
+		// (absent when the embedded pointer on the way is nil)
+		for _, f := range reflect.VisibleFields(t) {
+			if f.IsExported() && f.Name == p {
+				fv, err := rv.FieldByIndexErr(f.Index)
+				if err != nil {
+					return nil, false
+				}
+				return fv.Interface(), true
 			}
 		}
 		for i := 0; i < t.NumField(); i++ {
@@ -207,7 +213,7 @@ func c17Nested() map[string]any {
 	}
 }
 
-var c17Names = []string{"a", "b", "name", "Name", "Count", "secret", "inner", "Inner", "items", "hid", "tag_only", "Tagged", "Title", "n", "m", "st", "pinner", "Flag", "missing"}
+var c17Names = []string{"a", "b", "name", "Name", "Count", "secret", "inner", "Inner", "items", "hid", "tag_only", "Tagged", "Title", "n", "m", "st", "pinner", "Flag", "missing", "Created", "created", "ID", "Base", "title"}
 
 // roots are rebuilt for every case: Set on the bottom scope writes into a map root (toMapData returns the caller's map)
 func c17Roots() []func() any {
@@ -222,11 +228,20 @@ func c17Roots() []func() any {
 		func() any { x := s1(); return &x },
 		func() any { return S3{Title: "t", Name: "gn", N: 2} },
 		func() any { return S2{X: 5, Y: "why"} },
+		func() any { return S4{Base: Base{Created: "2024-01-01", ID: 1, note: "n"}, Title: "t4", ID: 9} },
+		func() any { x := S4{Base: Base{Created: "2024-02-02", ID: 2}, Title: "p4", ID: 8}; return &x },
+		func() any { return S5{Base: &Base{Created: "1999-09-09", ID: 3}, Title: "t5"} },
+		// (a nil embedded pointer is exercised as a value inside the map root below: as a ROOT, EnvMap would turn the nil *Base into an empty map,
+		// which the Val encoding of a nil pointer cannot express — it carries no pointee type)
+		func() any {
+			return map[string]any{"art": S4{Base: Base{Created: "2024-03-03", ID: 4}, Title: "in-map", ID: 7}, "list": []S4{{Base: Base{Created: "c0"}, Title: "l0"}}, "p5": S5{Base: &Base{Created: "c5"}}, "n5": S5{}}
+		},
 	}
 }
 
 var c17Steps = []string{".k", ".missing", "[0]", "[1]", "[5]", "[-1]", ".0", ".1", "['k']", "[\"k\"]", ".Name", ".name", ".secret", ".hid", ".x", ".X", ".Y", ".inner", ".Inner", ".pinner", ".PInner",
-	".l", ".l[2].z", ".one", ".items", ".Items[0]", " .k ", "..k", "[", "[]", "[ 0 ]", ".s", ".nil", ".Meta.a", ".tag_only", ".Title", ".n", ".a"}
+	".l", ".l[2].z", ".one", ".items", ".Items[0]", " .k ", "..k", "[", "[]", "[ 0 ]", ".s", ".nil", ".Meta.a", ".tag_only", ".Title", ".n", ".a",
+	".Created", ".created", ".ID", ".Base", ".Base.Created", ".Base.ID", ".note", ".title", ".art.Created", ".art.ID", ".art.Base.ID", ".list[0].Created", ".p5.Created", ".n5.Created", ".n5.Title", ".art.created"}
 
 func c17Values(r *Run) any {
 	vals := []any{nil, true, false, 0, 1, "", "str", int8(0), uint16(3), 1.5, []any{1, "x"}, map[string]any{"k": "v2"}, S2{3, "set"}, &S2{8, "pset"}, []int{}, map[string]string{}}
@@ -465,6 +480,8 @@ func c17Run(root any, ops []c17Op) *Case {
 							switch {
 							case inScopes && eok:
 								cls = "envmap-struct-field-over-scope"
+							case !eok && lok && (n == "Created" || n == "ID"):
+								cls = "envmap-lacks-promoted-field"
 							case !eok && lok:
 								cls = "envmap-lacks-go-name-of-tagged-field"
 							}
